@@ -10,6 +10,24 @@ CLAIMED = {
    design_ref="DESIGN.md 4.1, 5 (C05)",
    note="Trusted: clang's AST, the engine's CFG/dataflow (sa/), persistent's cPersistenceCAPI contract; lifecycle slots are accepted behind an explicit ghost test.",
    technique="typestate dataflow over clang AST CFGs (pin/unpin pairing on all exits), interprocedural needs-pinned summaries"),
+ "C04": dict(
+   category="other",
+   text="Must-follow dataflow on the clang CFGs of all 22 translation units: every store into persisted node data (len/next/firstbucket/keys[]/values[]/data[] incl. memmove and interior pointers) of a non-fresh node is followed on every success path by change registration (PER_CHANGED directly or via the flag-tracked `changed` accumulator); helpers that leave a parameter unregistered export caller-must-mark summaries checked at every call site; the embedded-single-leaf clause (tree registered when its oid-less only leaf changes) is checked as an implication between the guards of _BTree_set and BTree_getstate. Python: in-place list/_TreeItem mutation needs _p_changed or a persistent attribute store on the same path. Decides the registration mechanism, not commit/reload equality.",
+   design_ref="DESIGN.md 4.2, 5 (C04)",
+   note="Trusted: clang AST, sa/ dataflow, semantics of cPersistenceCAPI->changed and of Persistent attribute assignment. State loaders and lifecycle slots are exempt; one accepted idiom (first-leaf creation) is listed in the evidence.",
+   technique="must-follow (mutation -> PER_CHANGED) dataflow with caller-marks summaries; guard-implication check for the embedded-leaf clause; Python ast path walk"),
+ "C08": dict(
+   category="other",
+   text="Dominator check on the CFG of every function that descends a write into a child of an interior node: a readCurrent(X) call dominates each _BTree_set/_bucket_set call on X's child (22 TUs); call-graph reachability shows no registered read-only entry point reaches readCurrent. Python twin on _Tree._set/_del. This decides the sentence of the property about declared read dependencies; the outcomes of concurrent schedules are not decided by static analysis.",
+   design_ref="DESIGN.md 4.3, 5 (C08)",
+   note="Trusted: ZODB's readCurrent semantics; the refusal reasons of leaf merges are covered under C07.",
+   technique="dominator analysis + call-graph reachability (who may reach readCurrent)"),
+ "C19": dict(
+   category="proof",
+   text="Length._p_resolveConflict is shown equal to the polynomial s1 + s2 - old on every syntactic path by canonical-form normalisation over Z (exact for Python's unbounded ints), also under exchange of s1 and s2; the cell API is matched structurally (unconditional store/add/read of the single attribute value, nothing else written). This decides the property's formula for all integers and both orders.",
+   design_ref="DESIGN.md 4.8, 5 (C19)",
+   note="Trusted base: the polynomial normaliser in sa/rules/length.py (~60 lines), CPython's ast, Python integer semantics; pickling is persistent.Persistent's.",
+   technique="polynomial canonical form (ring identity) over the method's AST, structural match of the cell methods"),
 }
 
 NA_PENDING = "check not built yet (engine under construction); see DESIGN.md section 11"
